@@ -2,10 +2,24 @@
   Edn.Proofs.ReRead — C11, re-read half: for every value the reader returns and every value
   occurring in it that has a source range, reading exactly the bytes of that range returns the
   same value again (same kinds, payloads, children and relative positions).
+
+  Organisation of the proofs:
+    ReReadAux0   shared vocabulary of the cut lemmas
+    ReReadAux1   algebra of the position shift `shiftV` (hashing, equality, duplicate detection,
+                 key qualification and metadata merging do not see positions)
+    ReReadAux2   cut lemmas: whitespace skipper, strings and text blocks, symbolic values
+    ReReadAux3/4 cut lemmas: the number reader
+    ReReadAux5   cut lemmas: characters, identifiers
+    ReReadAux6   nesting-depth monotonicity (six-fold induction)
+    ReReadAux7   reading from the start position of a value skips nothing
+    ReReadAux8   continuation independence of the six reader functions (six-fold induction)
+    ReReadAux9   re-readable values: vocabulary, closure properties, a freshly read value
+    ReReadAux10  every value the reader returns is hereditarily re-readable (six-fold induction)
 -/
 import Edn.Spec.ReRead
 import Edn.Spec.Ranges
 import Edn.Proofs.Ranges
+import Edn.Proofs.ReReadAux10
 
 namespace Edn.Proofs
 open Edn.Model Edn.Spec
@@ -17,12 +31,28 @@ theorem readValue_cut (ctx : Ctx) (hreg : ctx.opts.registry = none) (f d : Nat) 
     (h : readValue ctx f d dm { rest := tok ++ r, calls := cl } = .ok v { rest := r, calls := cl' }) :
     ∃ v', readValue ctx f d dm { rest := tok, calls := cl } = .ok v' { rest := [], calls := cl' } ∧
       shiftV r.length v' = v := by
-  sorry
+  obtain ⟨t', v', hst, hsmall, hshift⟩ := readValue_cut_gen ctx hreg f d dm tok r cl v _ h (Nat.le_refl _)
+  simp only [St.mk.injEq] at hst
+  obtain ⟨hr, rfl⟩ := hst
+  have ht' : t' = [] := by
+    have := congrArg List.length hr
+    simp only [List.length_append] at this
+    exact List.eq_nil_of_length_eq_zero (by omega)
+  subst ht'
+  exact ⟨v', hsmall, hshift⟩
 
 /-- a form read inside `d` enclosing collections is read the same at top level -/
 theorem readValue_depth_mono (ctx : Ctx) (f d : Nat) (dm dm' : Bool) (hreg : ctx.opts.registry = none) (st st' : St) (v : Val)
-    (h : readValue ctx f (d + 1) dm st = .ok v st') : readValue ctx f 0 dm' st = .ok v st' := by
-  sorry
+    (h : readValue ctx f (d + 1) dm st = .ok v st') : readValue ctx f 0 dm' st = .ok v st' :=
+  readValue_depth_mono' ctx f d dm dm' hreg st st' v h
+
+/-- an `.ok` answer is the answer for every sufficient fuel -/
+theorem readValue_ok_fuel (ctx : Ctx) (f f' d : Nat) (dm : Bool) (st st' : St) (v : Val)
+    (h : readValue ctx f d dm st = .ok v st') (hf : 2 * st.rest.length + 2 ≤ f') :
+    readValue ctx f' d dm st = .ok v st' := by
+  rcases Nat.le_total f f' with hle | hle
+  · rw [readValue_fuel_le ctx f f' d dm st hle (by rw [h]; rfl)]; exact h
+  · rw [← readValue_fuel_le ctx f' f d dm st hle ((reader_fuel_sufficient ctx f').1 d dm st hf)]; exact h
 
 /-- top level: re-reading the bytes of any sub-value's range gives that sub-value again, up
     to the hash caches (which record whether somebody has asked for the hash already) -/
@@ -30,6 +60,27 @@ theorem reread_subvalue (cfg : Cfg) (opts : Opts) (hreg : opts.registry = none) 
     (h : (read cfg opts input).out = .value v) (hw : SubVal w v) (hs : w.hdr.synth = false) :
     ∃ w', (read cfg opts (sliceOf input w.hdr)).out = .value w' ∧
       eraseCache (shiftV w.hdr.e w') = eraseCache w := by
-  sorry
+  unfold Edn.Model.read at h
+  simp only [] at h
+  cases hr : readValue { cfg := cfg, opts := opts } (readFuel input) 0 false { rest := input } with
+  | closer st => rw [hr] at h; cases h
+  | err e st =>
+    rw [hr] at h
+    simp only [] at h
+    repeat' split at h
+    all_goals cases h
+  | ok v0 st =>
+    rw [hr] at h
+    simp only [Outcome.value.injEq] at h
+    subst h
+    have hall := (reader_hrr { cfg := cfg, opts := opts } hreg input (readFuel input)).1 0 false
+      { rest := input } v0 st (List.suffix_refl _) rfl hr
+    obtain ⟨f, w', h1, h2⟩ := hall w hw hs
+    refine ⟨w', ?_, h2⟩
+    have h3 := readValue_ok_fuel { cfg := cfg, opts := opts } f (readFuel (sliceOf input w.hdr)) 0 false _ _ _ h1
+      (by simp only [readFuel]; omega)
+    unfold Edn.Model.read
+    simp only []
+    rw [h3]
 
 end Edn.Proofs
